@@ -155,10 +155,13 @@ def check(gtext, start, text, settings, tagging, cache=None, direct=True):
             return dict(bucket=f'accept:{m[0]}-vs-{g[0]}', oracle='generated parser accepts exactly what the model accepts', model=m, generated=g), info
         if m[0] == 'ok' and m[1] != g[1]:
             return dict(bucket='ast', oracle='generated parser returns an equal AST', model=m, generated=g), info
-        if m[0] == 'ok' and kw.get('parseinfo'):
+        if m[0] == 'ok':
+            # with parseinfo=True as a setting or as the @@parseinfo directive (and equally none without)
             a, b = sorted(pinfo_triples(ma)), sorted(pinfo_triples(ga))
             if a != b:
-                return dict(bucket='parseinfo', oracle='equal (rule, pos, endpos) triples with parseinfo=True', model=a[:8], generated=b[:8]), info
+                return dict(bucket='parseinfo', oracle='equal (rule, pos, endpos) parseinfo triples on both sides', model=a[:8], generated=b[:8]), info
+            if a:
+                info['parseinfo'] = True
         return None, info
     finally:
         if own is not None:
@@ -192,7 +195,7 @@ def make_case(rnd):
                 directives.append(d)
     if rnd.random() < 0.3:
         n = rnd.choice(rules)[0]
-        ruleinfo.setdefault(n, {})['params'] = tuple(rnd.choice([('Tp',), ('Tp', 'x'), (7,), ('a b',)]))
+        ruleinfo.setdefault(n, {})['params'] = tuple(rnd.choice([('Tp',), ('Tp', 'x'), (7,), ('a b',), ('Tp::Base',), ('Tp::B1::B2', 'y')]))
         if rnd.random() < 0.5:
             ruleinfo[n]['kwparams'] = {'k': rnd.choice(['v', 3])}
     if rnd.random() < 0.25:
@@ -264,6 +267,8 @@ def run_shard(sh, n):
                     cls += [f'directive:{d_[0]}' for d_ in directives]
                     if keywords:
                         cls.append('keywords+@name')
+                    if info.get('parseinfo'):
+                        cls.append('parseinfo-compared')
                     if ruleinfo:
                         cls.append('rule-params')
                     if any(n in KEYWORDISH for n, _ in rules):
